@@ -86,6 +86,19 @@ def make_inputs(rng, n):
             if level == 'predicate':
                 toks = ['{'] + toks + ['}']
         origin = 'valid'
+        if level in ('specification', 'property') and rng.random() < 0.06:
+            # a repeated annotation key, with and without an id before it
+            key = gen.pick(rng, ('title', 'description', 'id'))
+            val = 'dup_id' if key == 'id' else '"again"'
+            extra = ['#', key, ':', val, '#', key, ':', val]
+            if rng.random() < 0.5:
+                extra = (['#', 'id', ':', 'p0'] if key != 'id' else ['#', 'title', ':', '"t"']) + extra if rng.random() < 0.5 else extra + (['#', 'id', ':', 'p0'] if key != 'id' else [])
+            body = toks
+            while body and body[0] == '#':
+                body = body[4:]
+            toks = extra + body
+            origin = 'dup-annotation'
+            k = 0.0
         if k < 0.30:
             pass
         elif k < 0.62:
